@@ -1004,12 +1004,15 @@ func runC29(r *simkit.R) {
 		}
 		ctx := context.Background()
 		trusted := false
-		if defect == sigUnsigned && r.Bool(35) {
-			// an unsigned request over a mutually authenticated connection: acceptable only with TTL 1
+		if defect != sigValid && r.Bool(35) {
+			// a request over a mutually authenticated connection: acceptable without a verification
+			// header only with TTL 1; a verification header that IS attached must verify whoever sends it
 			ctx = peer.NewContext(ctx, &peer.Peer{AuthInfo: peerauth.AuthInfo{PublicKey: w.nodes[1].key.PublicKey()}})
 			trusted = true
-			if sh.ttl == 1 {
+			if defect == sigUnsigned && sh.ttl == 1 {
 				exp, why = expAny, "trusted-peer-ttl1"
+			} else if defect != sigUnsigned {
+				r.Probe("wrongly signed request over a mutually authenticated connection")
 			}
 		}
 
